@@ -1,6 +1,9 @@
 package checks
 
 import (
+	"context"
+	"io"
+	"io/fs"
 	"fmt"
 	"errors"
 	"strconv"
@@ -19,7 +22,13 @@ import (
 // leaving the iterator at visit k ends it after exactly k+1 visits.
 
 func init() {
-	Register(&Check{Prop: "C05", Run: runC05, Replay: func(c *Ctx, cs *Case) { evalC05(c, cs) }})
+	Register(&Check{Prop: "C05", Run: runC05, Replay: func(c *Ctx, cs *Case) {
+		if cs.Kind == "very-deep" {
+			evalC05Deep(c, cs)
+			return
+		}
+		evalC05(c, cs)
+	}})
 }
 
 var c05Classes = []int{gen.ClassPlain, gen.ClassBullet, gen.ClassBlankEdge, gen.ClassUnicode, gen.ClassQuoting, gen.ClassExt, gen.ClassControl, gen.ClassCase}
@@ -64,7 +73,7 @@ func runC05(c *Ctx) bool {
 	// and the last name written again later, and spines deeper than 64 / 128 levels with
 	// alternating last / not-last ancestors
 	var shapes [][2]any
-	for _, w := range []int{31, 32, 33, 34, 63, 64, 65, 66, 127, 128, 129, 255, 256, 257} {
+	for _, w := range gen.WideSizes {
 		d, n := gen.WideDup(w, []int{0, w / 2, w - 2, w - 1})
 		shapes = append(shapes, [2]any{d, n})
 	}
@@ -74,6 +83,8 @@ func runC05(c *Ctx) bool {
 	}
 	{
 		d, n := gen.LongDup() // repeated sibling names of 63 ... 255 bytes
+		shapes = append(shapes, [2]any{d, n})
+		d, n = gen.TwinSiblings() // different sibling names with equal digests
 		shapes = append(shapes, [2]any{d, n})
 	}
 	for k, sh := range shapes {
@@ -86,7 +97,99 @@ func runC05(c *Ctx) bool {
 		evalC05(c, cs)
 		c.Progress(false)
 	}
+	// one spine deeper than 1024 levels (the library's cost grows with the cube of the depth: one
+	// From-Root walk only, 1030 levels in the quick tier, 2060 in the thorough one)
+	{
+		idx := base + nRand + len(shapes)
+		if c.Mine(idx) {
+			d := chain(c.Pick(1030, 2060))
+			names := make([]string, len(d))
+			for i := range names {
+				names[i] = "n" + strconv.Itoa(i%10)
+			}
+			cs := &Case{Idx: idx, Kind: "very-deep", Depths: d, Names: names, Seed: uint64(idx)}
+			c.Journal(cs)
+			evalC05Deep(c, cs)
+			c.Progress(false)
+		}
+	}
 	return true
+}
+
+func evalC05Deep(c *Ctx, cs *Case) {
+	f := gen.FromDepths(cs.Depths, cs.Names)
+	want := model.Rows(f, model.DefaultBranch)
+	rec := NewRowRec()
+	g := BuildRoot(f[0])
+	o := Guard(func() error { return gtree.WalkFromRoot(g, rec.Callback) })
+	rec.Seal(&o)
+	c.Eval(gen.HashString("very-deep"+strconv.Itoa(len(cs.Depths))), true)
+	c.Count("levels_of_the_deepest_walk", int64(len(cs.Depths)))
+	cs.Entry = "WalkFromRoot"
+	defer func() { cs.Entry = "" }()
+	switch {
+	case o.Panic != nil:
+		c.Violation(cs, "panic", PanicSig(o.Panic, o.Stack), map[string]any{"depth": len(cs.Depths), "stack": o.Stack})
+	case o.Err != nil:
+		c.Violation(cs, "walk.error", "", map[string]any{"depth": len(cs.Depths), "err": errStr(o.Err)})
+	case len(rec.Rows) != len(want):
+		c.Violation(cs, "rows.differ-from-model", "very-deep", map[string]any{"depth": len(cs.Depths), "visits": len(rec.Rows)})
+	default:
+		for i := range want {
+			if rec.Rows[i] != want[i] {
+				c.Violation(cs, "rows.differ-from-model", "very-deep", map[string]any{"depth": len(cs.Depths), "visit": i, "level": want[i].Level,
+					"got": trunc(rec.Rows[i].Row, 60) + " ... " + tail(rec.Rows[i].Row, 30) + " | path " + tail(rec.Rows[i].Path, 30) + " | level " + strconv.Itoa(rec.Rows[i].Level),
+					"want": trunc(want[i].Row, 60) + " ... " + tail(want[i].Row, 30) + " | path " + tail(want[i].Path, 30)})
+				break
+			}
+		}
+	}
+}
+
+func tail(s string, n int) string {
+	if len(s) <= n {
+		return s
+	}
+	return s[len(s)-n:]
+}
+
+// c05StopErr: the value a callback fails with. Every other one is the caller's own error; the
+// rest are values a consumer of other walking APIs might return out of habit (fs.SkipAll,
+// fs.SkipDir, io.EOF, context errors, the library's own exported errors) and wrapped / joined /
+// typed errors: whatever it is, the walk returns THAT value.
+type c05TypedErr struct{ k int }
+
+func (e *c05TypedErr) Error() string { return "typed-" + strconv.Itoa(e.k) }
+
+func c05StopErr(i int, text string) error {
+	if i%2 == 0 {
+		return errors.New(text)
+	}
+	switch (i / 2) % 12 {
+	case 0:
+		return fs.SkipAll
+	case 1:
+		return fs.SkipDir
+	case 2:
+		return io.EOF
+	case 3:
+		return context.Canceled
+	case 4:
+		return context.DeadlineExceeded
+	case 5:
+		return fmt.Errorf("stop here: %w", fs.SkipAll)
+	case 6:
+		return errors.Join(errors.New(text), io.ErrUnexpectedEOF)
+	case 7:
+		return &c05TypedErr{i}
+	case 8:
+		return gtree.ErrExistPath
+	case 9:
+		return gtree.ErrNilNode
+	case 10:
+		return io.ErrClosedPipe
+	}
+	return fmt.Errorf("%w", context.Canceled)
 }
 
 func evalC05(c *Ctx, cs *Case) {
@@ -362,7 +465,8 @@ func evalC05(c *Ctx, cs *Case) {
 		ks = []int{0, 1, total / 2, total - 2, total - 1, r.Intn(total)}
 	}
 	for _, k := range ks {
-		sentinel := errors.New("sentinel-" + strconv.Itoa(k))
+		sentinel := c05StopErr(cs.Idx+k, "sentinel-"+strconv.Itoa(k))
+		c.SetAdd("callback_error_values", fmt.Sprintf("%T:%s", sentinel, strings.TrimRight(strings.SplitN(sentinel.Error(), "\n", 2)[0], "-0123456789")))
 		rec := NewRowRec()
 		rec.FailAt, rec.Err = k, sentinel
 		o := Guard(func() error { return gtree.WalkFromMarkdown(MDReader(doc), rec.Callback) })
@@ -387,7 +491,7 @@ func evalC05(c *Ctx, cs *Case) {
 			}
 		}
 		for _, k := range kr {
-			sentinel := errors.New("sentinel-root-" + strconv.Itoa(k))
+			sentinel := c05StopErr(cs.Idx+k+5, "sentinel-root-"+strconv.Itoa(k))
 			rec := NewRowRec()
 			rec.FailAt, rec.Err = k, sentinel
 			g := BuildRoot(root)
